@@ -810,8 +810,31 @@ def oracle_forms(tn, rng, n, r1, Y1):
                 return f
     except Exception as e:
         return dict(what=f'evaluation of a tensor with mixed-dtype cores raised {e!r}'[:300], input=inp)
-    # number operands on either side, every magnitude
+    # exact power-of-two rescaling of one core (values stay exactly representable): every multilinear routine scales with it
     Yf = [np.array(G, dtype=float) for G in Y1]
+    D = dense_int(Y1).astype(object)
+    snap = [G.copy() for G in Yf]
+    for ex in (-1000, -300, -60, 60, 300, 900):
+        jj = rng.randrange(d)
+        Ys = [G * 2.0 ** ex if k == jj else G for k, G in enumerate(Yf)]
+        fs = Fraction(2) ** ex
+        try:
+            f = bad(f'full (core {jj} scaled by 2^{ex})', tn.full(Ys), D * fs) or \
+                bad(f'sum (core {jj} scaled by 2^{ex})', tn.sum(Ys), np.array(D.sum() * fs, dtype=object)) or \
+                bad(f'get (core {jj} scaled by 2^{ex})', tn.get(Ys, idx), np.array(D[tuple(idx)] * fs, dtype=object)) or \
+                bad(f'mul_scalar (core {jj} scaled by 2^{ex})', tn.mul_scalar(Ys, Yf), np.array((D * D).sum() * fs, dtype=object)) or \
+                bad(f'add (core {jj} scaled by 2^{ex})', tn.full(tn.add(Ys, Ys)), D * (2 * fs)) or \
+                bad(f'mul by tensor (core {jj} scaled by 2^{ex})', tn.full(tn.mul(Ys, Yf)), D * D * fs)
+        except Exception as e:
+            f = dict(what=f'evaluation of a tensor with a core scaled by 2^{ex} raised {e!r}'[:300], input=dict(inp, scale=ex))
+        if f:
+            f['input'] = dict(f.get('input', inp), scale=ex, scaled_core=jj)
+            return f
+    # history: the same objects went through every call above and must be bit-identical
+    for G0, G1 in zip(snap, Yf):
+        if G0.tobytes() != G1.tobytes() or G0.shape != G1.shape:
+            return dict(what='an evaluation / algebra routine modified its argument (bytes of a core changed)', input=inp)
+    # number operands on either side, every magnitude
     D = dense_int(Y1).astype(float)
     mx = max(1.0, float(np.abs(D).max()))
     for c in [0.0, 1.0, -2.5, 3, np.float64(0.5), 1e-17, -7e-20, 5e-300, 2.5e-17, 1e-16, -1e-16, 1.0000001e-16, -1e-15]:
